@@ -1,0 +1,10 @@
+//go:build verif
+
+package multi
+
+import "perun.network/go-perun/channel"
+
+// VerifLedgerIDs exports assets.LedgerIDs for the verification harness.
+func VerifLedgerIDs(a []channel.Asset) ([]LedgerBackendID, error) {
+	return assets(a).LedgerIDs()
+}
